@@ -5,7 +5,7 @@ from .engine import Job
 
 def jobs_c13(prop, tier, seed):
     rng = random.Random(seed * 104729 + 13)
-    s = 1 if tier == "quick" else 25
+    s = 1 if tier == "quick" else 100
     J = []
     for cfg in ("base", "dbg"):
         execs = []
@@ -19,9 +19,10 @@ def jobs_c13(prop, tier, seed):
                                "ops": rng.choice([40, 80, 150]), "seed": rng.randint(1, 10 ** 6)}, []))
         execs.append(({"store": "stateless", "mode": "stress", "threads": 4, "ops": 60, "seed": rng.randint(1, 10 ** 6)}, []))
         # stateless low-level allocators without any lock: the process-wide leak counter stays exact
+        sl = min(s, 25)
         for low in ("low_heap", "low_malloc", "low_new"):
-            for k in range(s):
-                execs.append(({"store": low, "threads": rng.choice([4, 8]), "ops": 400 * s}, []))
+            for k in range(sl):
+                execs.append(({"store": low, "threads": rng.choice([4, 8]), "ops": 400 * sl}, []))
         J.append(Job(cfg, "threads", "LockTrace", execs, "threads"))
     return J
 
